@@ -342,6 +342,63 @@ def rule_driver_tables(report, prog, rule='C18-R4'):
     report.floor(rule + ' table call sites', n, 6)
 
 
+def rule_acr122_beep(report, prog, rule='C18-R3'):
+    """connect() beeps after a true on-connect (`beep-on-connect`), between on-connect and the presence loop.  The ACR122U answers
+    the LED / buzzer command only when the sequence has run, so the transfer must wait longer than the T1 duration it puts into the
+    command: set_buzzer_and_led_to_active() (and a helper it may delegate to) is folded for durations 0..30 s and every
+    ccid_xfr_block() it reaches must be given a timeout above T1 x 100 ms -- else the IOError(ETIMEDOUT) of a healthy reader ends
+    connect() without on-release."""
+    from ..q import fold_lenient
+    cls = prog.cls('nfc.clf.acr122.Chipset')
+    f = prog.lookup(cls, 'set_buzzer_and_led_to_active')
+    if not isinstance(f, FuncInfo):
+        raise AnalysisError('%s: acr122 set_buzzer_and_led_to_active not found' % rule)
+    xfr = prog.lookup(cls, 'ccid_xfr_block')
+    default = try_const(xfr.node.args.defaults[-1]) if isinstance(xfr, FuncInfo) and xfr.node.args.defaults else None
+    bad = []
+    n = 0
+    for dur in (0, 50, 100, 300, 1000, 2500, 25500, 30000):
+        seen = []
+
+        def visit(st, env, depth=0):
+            if not (isinstance(st, ast.Expr) and isinstance(st.value, ast.Call) and isinstance(st.value.func, ast.Attribute)
+                    and norm(st.value.func.value) == 'self'):
+                return
+            c = st.value
+            if c.func.attr == 'ccid_xfr_block':
+                kw = {k.arg: k.value for k in c.keywords}
+                t = kw.get('timeout', c.args[1] if len(c.args) > 1 else None)
+                seen.append((try_const(c.args[0], env, default=NotImplemented) if c.args else NotImplemented,
+                             default if t is None else try_const(t, env, default=NotImplemented)))
+            elif depth < 2:
+                g = prog.lookup(cls, c.func.attr)
+                if isinstance(g, FuncInfo):
+                    params = [a.arg for a in g.node.args.args][1:]
+                    defs = g.node.args.defaults
+                    env2 = {}
+                    for i_, p_ in enumerate(params):
+                        if i_ < len(c.args):
+                            env2[p_] = try_const(c.args[i_], env, default=NotImplemented)
+                        else:
+                            j = i_ - (len(params) - len(defs))
+                            kwv = [k.value for k in c.keywords if k.arg == p_]
+                            env2[p_] = try_const(kwv[0], env, default=NotImplemented) if kwv else (try_const(defs[j]) if j >= 0 else NotImplemented)
+                    env2 = {k: v for k, v in env2.items() if v is not NotImplemented}
+                    fold_lenient(g.node.body, env2, visit=lambda s_, e_: visit(s_, e_, depth + 1))
+        fold_lenient(f.node.body, {f.params[1] if len(f.params) > 1 else 'duration_in_ms': dur}, visit=visit)
+        if not seen:
+            bad.append('duration %d ms: no ccid_xfr_block() reached' % dur)
+        for data, t in seen:
+            n += 1
+            if data is NotImplemented or t is NotImplemented or t is None or len(bytes(data)) < 6:
+                bad.append('duration %d ms: cannot fold the command / timeout' % dur)
+            elif not t * 10 > bytes(data)[5]:
+                bad.append('duration %d ms: command T1 = %d x 100 ms is sent with a transfer timeout of %.1f s' % (dur, bytes(data)[5], t))
+    report.check(not bad, rule, key(f.qname, 'the transfer waits longer than the buzzer sequence it starts'), f.loc(),
+                 'ACR122U: %s: the reader answers only when the sequence is over, the read times out (IOError) and connect() ends without '
+                 'on-release' % '; '.join(bad[:2]), detail='%d transfers folded' % n)
+
+
 def run(report, prog, tier):
     rule_typestate(report, prog)
     rule_returns(report, prog)
@@ -351,6 +408,7 @@ def run(report, prog, tier):
     rule_stale(report, prog)
     rule_stale_link(report, prog)
     rule_driver_tables(report, prog)
+    rule_acr122_beep(report, prog)
     # a tag that fails its activation commands is skipped, connect() keeps polling: the activation boundary of nfc.tag (shared with C16-R4)
     from .c16 import rule_activate
     rule_activate(report, prog, rule='C18-R2')
@@ -360,6 +418,8 @@ def run(report, prog, tier):
 
 C = 'nfc.clf'
 MUTANTS = [
+    ('acr122-beep-default-timeout', 'nfc.clf.acr122', """        self.ccid_xfr_block(bytearray.fromhex(data),
+                            timeout=timeout_in_seconds)""", """        self.ccid_xfr_block(bytearray.fromhex(data))""", 'C18-R3'),
     ('rcs380-sense-tta-accepts-any-type-a-rate', 'nfc.clf.rcs380', '        if target.brty not in ("106A", "212A", "424A"):', '        if not target.brty.endswith("A"):', 'C18-R4'),
     ('llc-activate-keeps-old-link', 'nfc.llcp.llc', """        assert isinstance(mac, (nfc.dep.Initiator, nfc.dep.Target))
         self.mac = None
